@@ -42,7 +42,14 @@ def write_evidence(prop, tier, seed, *, agg, summ, n_obl, n_dis, solver_secs, pe
             "instances are not counted as discharged."),
         "functions_under_contract": [
             {"function": f"{v['module']}:{v['qualname']}", "sha256": v["sha256"], "line": v["lineno"],
-             "loops_cut": v["loops"], "await_sites": v["awaits"]} for v in fn_rows.values()],
+             "loops_cut": v["loops"], "await_sites": v["awaits"],
+             # reachability record: arms of the `if` statements of the real text entered on a feasible explored path
+             # of a non-canary unit ("<line>T" = the test held, "<line>F" = it did not); an arm listed as unreached is
+             # excluded by the units' preconditions / stand-ins, or lies behind a raise / loop cut that ends the path -
+             # nothing is claimed about code that is only reachable through it
+             "if_arms": len(v.get("arms", ())), "if_arms_reached": len(set(v.get("arms_reached", ())) & set(v.get("arms", ()))),
+             "if_arms_unreached": sorted(set(v.get("arms", ())) - set(v.get("arms_reached", ())),
+                                         key=lambda a: (int(a[:-1]), a[-1]))} for v in fn_rows.values()],
         "units": units,
         "per_backend": dict(per_backend),
         "solver_secs": round(solver_secs, 2),
